@@ -8,7 +8,8 @@
 static HCfg cfg_of(const Case &c, int i) {
     HCfg h = HCfg::from_case(c);
     if (i == 1 && !c.c(11)) { h.mtu = (size_t)std::max<int64_t>(576, std::min<int64_t>(c.c(8, 1500), 9216)); h.wifi = (int)c.c(9); h.own = (uint64_t)c.c(10, 0x020000000002LL); }
-    if (i == 1 && c.c(11)) h.own ^= 0x01;    // same everything (also the same station table) except the own address' last bit
+    if (i == 1 && c.c(11) == 1) h.own ^= 0x01;    // same everything (also the same station table) except the own address' last bit
+    // c.c(11) == 2: same everything INCLUDING the hardware address (bond slaves, VLAN sub-interfaces): only the context pointer tells them apart
     return h;
 }
 static std::vector<Op> ops_of(const Case &c, int i) {
@@ -85,7 +86,7 @@ static Verdict run(const Case &c) {
         v.cls("solo-in-fresh-process");
     }
     v.nontrivial = tx[0] >= 2 && tx[1] >= 2 && switches >= 2;
-    if (c.c(11)) v.cls("identical-configurations");
+    if (c.c(11)) v.cls(c.c(11) == 2 ? "identical-configurations-and-address" : "identical-configurations");
     if (switches >= 2) v.cls("alternates>=2");
     return v;
 }
@@ -191,7 +192,7 @@ int main(int argc, char **argv) {
             Case c; h.to_case(c);
             HCfg h1 = *hg::cfg_gen();
             c.cfg.push_back((int64_t)h1.mtu); c.cfg.push_back(h1.wifi); c.cfg.push_back((int64_t)(h1.own == h.own ? h.own ^ 0x0100 : h1.own));
-            c.cfg.push_back(*gx::pick({0, 0, 1}));
+            c.cfg.push_back(*gx::pick({0, 0, 0, 1, 1, 2}));
             c.cfg.push_back(force_phase >= 0 ? force_phase : *gx::pick({0, 1, 1, 1}));
             auto o0 = *hg::ops_gen(w, 1, 25), o1 = *hg::ops_gen(w, 1, 25);
             if (*gx::chance(40)) { Op r; r.kind = K_RESET; r.a = {*gx::range<int64_t>(0, 2), 0, 1}; o1.insert(o1.begin() + (long)(o1.size() / 2), r); }   // Reset on one interface in the middle of the other's session
